@@ -102,6 +102,7 @@ type Gen struct {
 	extraTrusted map[string]bool
 	UsedSpecs map[string]bool
 	frozen   bool
+	errClasses []string
 	prelude  []string // assertions that hold globally (placed before all commands)
 }
 
@@ -401,6 +402,7 @@ func (g *Gen) newObject(st *State) string {
 }
 
 func (g *Gen) zeroObject(st *State, o string, t types.Type) {
+	g.assume(sEq(app("objsize", o), g.M.IxLit(g.L.Size(t))))
 	seen := map[string]bool{}
 	for _, r := range g.L.Ranges(t) {
 		if seen[r.Sort] {
